@@ -543,7 +543,7 @@ class Discharger:
             if n_dst is not None and g is not None and g == n_dst:
                 return 'D3', 'slice of guarded length %s converted to an array of %s' % (g, n_dst)
             return None
-        if name in ('to_vec', 'from_elem'):
+        if name in ('to_vec', 'from_elem', 'extend_from_slice'):
             return 'T', 'allocation proportional to the input length (+Nt); failure aborts (outside the property)'
         if name == 'assert_failed':
             return self.d_len_assert(key, a, s)
